@@ -1,0 +1,55 @@
+// Copyright 2026 Juan Pablo Tosso and the OWASP Coraza contributors
+// SPDX-License-Identifier: Apache-2.0
+
+//go:build verif
+
+package corazawaf
+
+import "unsafe"
+
+func uintptrOf(p *byte) uintptr { return uintptr(unsafe.Pointer(p)) }
+
+// VerifSnapshotFields lists, for the conformance harness, the per-transaction state that a
+// recycled Transaction must have reset (field name -> printable value).
+func (tx *Transaction) VerifSnapshotFields() map[string]any {
+	return map[string]any{
+		"matchedRules":                len(tx.matchedRules),
+		"interruption":                tx.interruption != nil,
+		"detectionOnlyInterruption":   tx.detectionOnlyInterruption != nil,
+		"Logdata":                     tx.Logdata,
+		"SkipAfter":                   tx.SkipAfter,
+		"AllowType":                   int(tx.AllowType),
+		"AuditEngine":                 int(tx.AuditEngine),
+		"AuditLogParts":               string(tx.AuditLogParts),
+		"AuditLogFormat":              tx.AuditLogFormat,
+		"ForceRequestBodyVariable":    tx.ForceRequestBodyVariable,
+		"RequestBodyAccess":           tx.RequestBodyAccess,
+		"RequestBodyLimit":            tx.RequestBodyLimit,
+		"ForceResponseBodyVariable":   tx.ForceResponseBodyVariable,
+		"ResponseBodyAccess":          tx.ResponseBodyAccess,
+		"ResponseBodyLimit":           tx.ResponseBodyLimit,
+		"RuleEngine":                  int(tx.RuleEngine),
+		"HashEngine":                  tx.HashEngine,
+		"HashEnforcement":             tx.HashEnforcement,
+		"lastPhase":                   int(tx.lastPhase),
+		"requestBodyBuffer.length":    tx.requestBodyBuffer.length,
+		"requestBodyBuffer.file":      tx.requestBodyBuffer.writer != nil,
+		"requestBodyBuffer.readers":   len(tx.requestBodyBuffer.readers),
+		"requestBodyBuffer.buffered":  tx.requestBodyBuffer.buffer.Len(),
+		"responseBodyBuffer.length":   tx.responseBodyBuffer.length,
+		"responseBodyBuffer.file":     tx.responseBodyBuffer.writer != nil,
+		"responseBodyBuffer.readers":  len(tx.responseBodyBuffer.readers),
+		"responseBodyBuffer.buffered": tx.responseBodyBuffer.buffer.Len(),
+		"ruleRemoveByID":              len(tx.ruleRemoveByID),
+		"ruleRemoveByIDRanges":        len(tx.ruleRemoveByIDRanges),
+		"ruleRemoveTargetByID":        len(tx.ruleRemoveTargetByID),
+		"Skip":                        tx.Skip,
+		"Capture":                     tx.Capture,
+		"stopWatches":                 len(tx.stopWatches),
+		"audit":                       tx.audit,
+		"transformationCache":         len(tx.transformationCache),
+	}
+}
+
+// VerifTransformationCacheLen exposes the size of the per-phase transformation cache.
+func (tx *Transaction) VerifTransformationCacheLen() int { return len(tx.transformationCache) }
